@@ -317,12 +317,12 @@ class SymBool(object):
 
 
 # ---------------------------------------------------------------------------
-QZERO = Q(P.ZERO)
-QONE = Q(P.ONE)
+QZERO = Q.const(0)
+QONE = Q.const(1)
 
 
 def _q(c):
-    return Q(Poly.const(c))
+    return Q.const(c)
 
 
 def _lift(o):
@@ -562,10 +562,13 @@ class Sym(object):
 
     def _sqrt_def(self):
         """if self is exactly a fresh variable defined as a square root, return its square"""
-        if self.im.is_zero() and not self.re.d and len(self.re.n.t) == 1:
+        if self.im.is_zero() and not self.re.d and self.re.s == 1 and len(self.re.n.t) == 1:
             (m, c), = self.re.n.t.items()
             if c == 1 and len(m) == 1 and m[0][1] == 1:
-                return ctx().sqrt_defs.get(-m[0][0])
+                d = ctx().sqrt_defs.get(-m[0][0])
+                if isinstance(d, tuple):        # ('abs', x): |x|^2 = x^2, computed only when asked for
+                    return d[1] * d[1]
+                return d
         return None
 
     def abs2(self):
@@ -579,6 +582,8 @@ class Sym(object):
             if isinstance(v, Fraction):
                 return Sym(_q(abs(v)))
             return _lift(abs(v))
+        if self.im.is_zero():
+            return _fresh_abs_real(self.re)
         sq = self.abs2().re
         return _fresh_root(sq, "abs")
 
@@ -716,12 +721,27 @@ class SymZeroDivision(ZeroDivisionError):
     pass
 
 
+def _fresh_abs_real(x):
+    """fresh s with s >= 0 and (s == x or s == -x): |x| of a real value without squaring it"""
+    c = ctx()
+    for vi, d in c.sqrt_defs.items():
+        if isinstance(d, tuple) and d[1].same(x):
+            return Sym(Q(P.get_var(P.var_names()[vi])))
+    name = c.fresh_name("abs")
+    v = Q.var(name, kind='root')
+    vi = P._VAR_INDEX[name]
+    c.sqrt_defs[vi] = ('abs', x)
+    c.axioms.append(SymBool.cmp('<=', -v))
+    c.axioms.append(SymBool.any([SymBool.cmp('==', v - x), SymBool.cmp('==', v + x)]))
+    return Sym(v)
+
+
 def _fresh_root(sq, stem):
     """fresh s >= 0 with s*s == sq (sq a Q)."""
     c = ctx()
     key = ('root', id(sq))
     for vi, q in c.sqrt_defs.items():
-        if q.n == sq.n and q.d == sq.d:
+        if not isinstance(q, tuple) and q.same(sq):
             return Sym(Q(P.get_var(P.var_names()[vi])))
     name = c.fresh_name(stem)
     v = Q.var(name, kind='root')
